@@ -170,9 +170,47 @@ def slice_case(draw):
     P = np.maximum(np.asarray(c["P"]), 0.0)
     sums = P.sum(axis=1)
     lo, hi = float(sums.min()), float(sums.max())
-    mode = draw(st.sampled_from(["between", "between", "at-vertex"]))
+    mode = draw(st.sampled_from(["between", "between", "at-vertex", "tied-vertices"]))
     if hi - lo < 1e-6:
         cc = None
+    elif mode == "tied-vertices":
+        # several vertices whose coordinate sums agree up to rounding (cyclic shifts of one row, optionally rescaled by 3 and back):
+        # the plane through them contains hull edges, and which side of it each end falls on is decided by the last bit
+        inner = [i for i, s in enumerate(sums) if lo < s < hi]
+        i = draw(st.sampled_from(inner)) if inner else int(np.argmax(sums))
+        base = P[i] + np.asarray(draw(gens.array((P.shape[1],), 0.0, 1.0, styles=("raw",)))) * 0.3
+        extra = []
+        if draw(st.booleans()):
+            # make the tied rows hull vertices joined by hull edges: one dominant coordinate a > any pair sum of the other rows,
+            # plus one row above the plane whose pair sums stay below a
+            a = 2.5 * max(float(P.max()), 1e-3)
+            base = base * (0.3 / max(float(P.max()), 1e-3)) * a * 0.1 + a * np.eye(P.shape[1])[0]
+            extra = [np.full(P.shape[1], (0.4 if P.shape[1] >= 3 else 0.7) * a)]
+        rows = [np.roll(base, j) for j in range(P.shape[1])]
+        # transfers between two coordinates keep the sum only up to rounding (x_i + t and x_j - t round independently)
+        for r in list(rows):
+            j0 = int(np.argmax(r))
+            for j1 in range(P.shape[1]):
+                if j1 != j0:
+                    t_ = float(r[j0]) * draw(st.floats(0.1, 0.9))
+                    q = r.copy()
+                    q[j0], q[j1] = q[j0] - t_, q[j1] + t_
+                    rows.append(q)
+        rows = rows[:3 * P.shape[1] + 2]
+        for r in rows[1:]:
+            # last-bit nudges: sums one or two units in the last place below and above each other
+            j0 = int(np.argmax(r))
+            for _ in range(abs(k_ := draw(st.integers(-2, 2)))):
+                r[j0] = np.nextafter(r[j0], np.inf if k_ > 0 else 0.0)
+        if draw(st.booleans()):
+            rows += [np.roll(base, j) * 3.0 / 3.0 + 0.0 for j in range(1, P.shape[1])]
+        P = np.vstack([P] + rows + extra)
+        sums = P.sum(axis=1)
+        lo, hi = float(sums.min()), float(sums.max())
+        tied = sorted(set(float(np.sum(r)) for r in rows))
+        cc = tied[draw(st.integers(0, max(0, len(tied) - 2)))]          # a tied sum with at least one tied row above it (when they differ)
+        if not (lo < cc < hi):
+            cc = lo + 0.5 * (hi - lo) if hi - lo >= 1e-6 else None
     elif mode == "at-vertex":
         inner = sorted(set(float(s) for s in sums if lo < s < hi))
         cc = draw(st.sampled_from(inner)) if inner else lo + 0.5 * (hi - lo)
@@ -183,14 +221,55 @@ def slice_case(draw):
     return c
 
 
-def slice_support(P, c, u):
-    """max u.p over hull(P) intersected with sum(p) = c."""
+def slice_support(P, c, u, c_hi=None):
+    """max u.p over hull(P) intersected with sum(p) = c (or with c <= sum(p) <= c_hi)."""
+    from scipy.optimize import linprog
     k, d = P.shape
-    A_eq = np.vstack([np.ones((1, k)), (P.sum(axis=1))[None, :]])
-    r = _linprog(-(P @ u), A_eq=A_eq, b_eq=[1.0, c], bounds=[(0, None)] * k)
+    sums = P.sum(axis=1)
+    opts = dict(primal_feasibility_tolerance=1e-10, dual_feasibility_tolerance=1e-10)
+    if c_hi is None:
+        r = linprog(-(P @ u), A_eq=np.vstack([np.ones((1, k)), sums[None, :]]), b_eq=[1.0, c], bounds=[(0, None)] * k, method="highs", options=opts)
+    else:
+        r = linprog(-(P @ u), A_eq=np.ones((1, k)), b_eq=[1.0], A_ub=np.vstack([sums[None, :], -sums[None, :]]), b_ub=[c_hi, -c],
+                    bounds=[(0, None)] * k, method="highs", options=opts)
     if r.status != 0:
         return None
     return float(-r.fun)
+
+
+def slice_candidates(P, c):
+    """Points whose convex hull is hull(P) cap {sum = c}: the rows on the plane and the crossings of ALL segments between a row
+    below and a row above (a superset of the edge crossings that lies inside the slice).  t is computed from the two sums, so
+    0 < t < 1 whenever s_below < c < s_above in floating point."""
+    sums = P.sum(axis=1)
+    below, above, on = P[sums < c], P[sums > c], P[sums == c]
+    sb, sa = sums[sums < c], sums[sums > c]
+    out = [on]
+    if len(below) and len(above):
+        t = (c - sb)[:, None] / (sa[None, :] - sb[:, None])
+        out.append((below[:, None, :] + t[:, :, None] * (above[None, :, :] - below[:, None, :])).reshape(-1, P.shape[1]))
+    return np.vstack(out)
+
+
+def slice_support_band(P, c, dirs, tau):
+    """(lower, upper) envelopes, per direction, of the support of hull(P) cap {sum = c'} over |c' - c| <= tau, or None for the lower one.
+    The slice is discontinuous in c when rows lie within rounding of the plane (the side they are on is decided by the last bit
+    of a float sum).  The support is concave and piecewise linear in c' with break points at the row sums: its minimum over the
+    band is attained at an end of the band, its maximum at an end or at a row sum inside the band.  When no row lies clearly
+    (10 tau) beyond the plane on one of the two sides the lower envelope is not defined (the band leaves the cloud) -> None."""
+    sums = P.sum(axis=1)
+    U = np.asarray(dirs, dtype=float)
+    lo, hi = c - tau, c + tau
+    pts = [lo, hi] + [float(s) for s in sums if lo < s < hi]
+    vals = []
+    for cc in pts:
+        cand = slice_candidates(P, cc)
+        vals.append(np.max(cand @ U.T, axis=0) if len(cand) else np.full(len(U), -np.inf))
+    vals = np.asarray(vals)
+    upper = vals.max(axis=0)
+    well_posed = float(sums.min()) < c - 10 * tau and float(sums.max()) > c + 10 * tau
+    lower = np.minimum(vals[0], vals[1]) if well_posed else None
+    return lower, upper
 
 
 def body_slice(case):
@@ -212,17 +291,17 @@ def body_slice(case):
     # support functions: hull(Q) == hull(P) cap plane
     d = P.shape[1]
     dirs = [u / np.linalg.norm(u) for u in np.asarray(case["dirs"], dtype=float) if np.linalg.norm(u) > 1e-3] + list(np.eye(d)) + list(-np.eye(d))
-    for u in dirs:
-        s_exact = slice_support(P, c, u)
-        if s_exact is None:
-            continue
-        s_got = float(np.max(Q @ u))
-        check(s_got <= s_exact + 1e-6 * span * np.linalg.norm(u), "slice:too-large", f"returned set exceeds the exact slice in direction {u.tolist()}: {s_got} > {s_exact}")
-        check(s_got >= s_exact - 1e-6 * span * np.linalg.norm(u), "slice:too-small",
-              f"returned set misses part of the exact slice in direction {np.round(u, 3).tolist()}: support {s_got:.9g} < {s_exact:.9g}",
-              observed=dict(c=c, n_returned=int(Q.shape[0])))
-    labs = [f"d{d}", case["kind"], case["mode"]]
-    if case["kind"] in ("lattice", "few") or case["mode"] == "at-vertex":
+    tau = 1e-9 * max(1.0, abs(c))
+    lower, upper = slice_support_band(P, c, dirs, tau)
+    got = np.max(Q @ np.asarray(dirs).T, axis=0)
+    for j, u in enumerate(dirs):
+        check(got[j] <= upper[j] + 1e-6 * span, "slice:too-large", f"returned set exceeds the exact slice in direction {u.tolist()}: {got[j]} > {upper[j]}")
+        if lower is not None:
+            check(got[j] >= lower[j] - 1e-6 * span, "slice:too-small",
+                  f"returned set misses part of the exact slice in direction {np.round(u, 3).tolist()}: support {got[j]:.9g} < {lower[j]:.9g}",
+                  observed=dict(c=c, n_returned=int(Q.shape[0])))
+    labs = [f"d{d}", case["kind"], case["mode"]] + ([] if lower is not None else ["no-row-clearly-beyond-the-plane:upper-envelope-only"])
+    if case["kind"] in ("lattice", "few") or case["mode"] in ("at-vertex", "tied-vertices"):
         labs.append("nt:lattice-few-or-vertex")
     else:
         labs.append("nt:slice")
